@@ -17,6 +17,8 @@
 #include <vector>
 
 #include <fcntl.h>
+#include <pthread.h>
+#include <sys/wait.h>
 #include <sys/stat.h>
 #include <sys/types.h>
 #include <unistd.h>
@@ -40,11 +42,25 @@ int __real_posix_fadvise(int, off_t, off_t, int);
 int __real_posix_fadvise64(int, off64_t, off64_t, int);
 FILE* __real_fdopen(int, const char*);
 int __real_fileno(FILE*);
+int __real_pipe(int*);
+pid_t __real_fork(void);
+pid_t __real_waitpid(pid_t, int*, int);
 }
 
 namespace simfs {
 
+// An anonymous pipe: bounded FIFO with blocking read/write. The blocking is ordinary monitor code over pthread
+// mutex/condvar calls, which the linker routes to the scheduler's model like every other such call in the binary.
+struct Pipe {
+    std::string fifo;
+    size_t capacity = 65536;
+    int readers = 0, writers = 0;
+    pthread_mutex_t mu = PTHREAD_MUTEX_INITIALIZER;
+    pthread_cond_t cv = PTHREAD_COND_INITIALIZER;
+};
+
 struct File {
+    std::shared_ptr<Pipe> pipe;   // set for the pseudo file of a pipe
     std::string path;
     std::string data;
     bool dirty = false;
@@ -57,6 +73,18 @@ struct OpenFile {
     std::shared_ptr<File> file;
     size_t pos = 0;
     int flags = 0;
+    int pipe_end = 0;             // 1 read end, 2 write end
+};
+
+// A simulated child process ("curl"): one more party, run as a simulated thread. It writes `data` to the write end of
+// the pipe it inherited, in pieces, and exits; waitpid() blocks until then.
+struct Child {
+    int pid = 0;
+    ChildSpec spec;
+    int out_fd = -1;
+    bool done = false, reaped = false;
+    int status = 0;
+    pthread_t thread{};
 };
 
 static std::map<std::string, std::shared_ptr<File>> g_files;
@@ -67,8 +95,38 @@ static std::vector<Fault> g_faults;
 static uint64_t g_syscalls = 0;
 static uint64_t g_fired = 0;
 static uint64_t g_first_fault_event = 0;
+static bool g_child_enabled = false;
+static ChildSpec g_child_spec;
+static std::vector<std::shared_ptr<Child>> g_children;
+static int g_last_pipe_write_fd = -1;
+static int g_pipe_count = 0;
+static std::string g_last_pipe_path;
+
+void set_child(const ChildSpec& spec) {
+    g_child_enabled = true;
+    g_child_spec = spec;
+}
+std::string last_pipe_path() { return g_last_pipe_path; }
+size_t children_started() { return g_children.size(); }
+size_t children_unreaped() {
+    size_t n = 0;
+    for (const auto& c : g_children) { n += c->reaped ? 0 : 1; }
+    return n;
+}
+size_t children_running() {
+    size_t n = 0;
+    for (const auto& c : g_children) { n += c->done ? 0 : 1; }
+    return n;
+}
+int last_child_status() { return g_children.empty() ? -1 : g_children.back()->status; }
 
 void reset() {
+    g_child_enabled = false;
+    g_child_spec = ChildSpec{};
+    g_children.clear();
+    g_last_pipe_write_fd = -1;
+    g_pipe_count = 0;
+    g_last_pipe_path.clear();
     g_files.clear();
     g_fds.clear();
     g_streams.clear();
@@ -177,6 +235,10 @@ static Fault* find_fault(Fault::Kind kind, const std::string& path) {
     return nullptr;
 }
 
+static ssize_t pipe_read(int fd, void* buf, size_t n);
+static ssize_t pipe_write(int fd, const void* buf, size_t n);
+static void pipe_end_closed(const std::shared_ptr<struct OpenFile>& of);
+
 static int sim_open(const char* path, int flags) {
     point("open");
     std::string p{path};
@@ -218,6 +280,7 @@ static ssize_t sim_read(int fd, void* buf, size_t n) {
         errno = EBADF;
         return -1;
     }
+    if (of->file->pipe) { return pipe_read(fd, buf, n); }
     File& f = *of->file;
     const uint64_t call_no = f.reads++;
     if (Fault* ft = find_fault(Fault::READ_ERR_NTH, f.path)) {
@@ -276,6 +339,7 @@ static ssize_t sim_write(int fd, const void* buf, size_t n) {
         errno = EBADF;
         return -1;
     }
+    if (of->file->pipe) { return pipe_write(fd, buf, n); }
     File& f = *of->file;
     ++f.writes;
     if (of->flags & O_APPEND) { of->pos = f.data.size(); }
@@ -331,7 +395,10 @@ static int sim_close(int fd) {
             rc = -1;
         }
     }
+    std::shared_ptr<OpenFile> of = it->second;
+    if (of->file->pipe) { sim::debug("close of pipe fd " + std::to_string(fd) + " end " + std::to_string(of->pipe_end) + " by thread " + std::to_string(sim::current_thread())); }
     g_fds.erase(it); // like Linux: the descriptor is gone even if close() reports an error
+    if (of->file->pipe && of.use_count() == 1) { pipe_end_closed(of); }
     return rc;
 }
 
@@ -369,6 +436,10 @@ static off64_t sim_lseek(int fd, off64_t off, int whence) {
         errno = EBADF;
         return -1;
     }
+    if (of->file->pipe) {
+        errno = ESPIPE;
+        return -1;
+    }
     int64_t base = 0;
     if (whence == SEEK_CUR) { base = static_cast<int64_t>(of->pos); }
     else if (whence == SEEK_END) { base = static_cast<int64_t>(of->file->data.size()); }
@@ -400,6 +471,180 @@ static int sim_ftruncate(int fd, off64_t len) {
     of->file->data.resize(static_cast<size_t>(len), '\0');
     of->file->dirty = true;
     return 0;
+}
+
+// ---- pipes
+
+static ssize_t pipe_read(int fd, void* buf, size_t n) {
+    std::shared_ptr<OpenFile> of = g_fds[fd];   // keeps the description alive while this thread is blocked
+    File& f = *of->file;
+    Pipe& p = *f.pipe;
+    if (of->pipe_end != 1) {
+        errno = EBADF;
+        return -1;
+    }
+    ++f.reads;
+    if (!sim::quiet() && g_soft.eintr_one_in && sim::chance(sim::S_IO, g_soft.eintr_one_in)) {
+        sim::fault_fired("read EINTR");
+        errno = EINTR;
+        return -1;
+    }
+    pthread_mutex_lock(&p.mu);
+    bool waited = false;
+    while (p.fifo.empty() && p.writers > 0) {
+        waited = true;
+        pthread_cond_wait(&p.cv, &p.mu);
+    }
+    if (waited) { sim::probe("reader blocked on an empty pipe"); }
+    const size_t len = n < p.fifo.size() ? n : p.fifo.size();
+    if (len > 0) {
+        memcpy(buf, p.fifo.data(), len);
+        p.fifo.erase(0, len);
+        if (len < n) { sim::fault_fired("short read (pipe)"); }
+        sim::progress();
+        pthread_cond_broadcast(&p.cv);
+    }
+    pthread_mutex_unlock(&p.mu);
+    return static_cast<ssize_t>(len);
+}
+
+static ssize_t pipe_write(int fd, const void* buf, size_t n) {
+    std::shared_ptr<OpenFile> of = g_fds[fd];
+    File& f = *of->file;
+    Pipe& p = *f.pipe;
+    if (of->pipe_end != 2) {
+        errno = EBADF;
+        return -1;
+    }
+    ++f.writes;
+    pthread_mutex_lock(&p.mu);
+    bool waited = false;
+    while (p.readers > 0 && p.fifo.size() >= p.capacity) {
+        waited = true;
+        pthread_cond_wait(&p.cv, &p.mu);
+    }
+    if (waited) { sim::probe("writer blocked on a full pipe"); }
+    if (p.readers == 0) {
+        pthread_mutex_unlock(&p.mu);
+        sim::probe("write to a pipe without readers (EPIPE)");
+        errno = EPIPE;   // SIGPIPE is ignored by the simulated child, as curl does
+        return -1;
+    }
+    const size_t space = p.capacity - p.fifo.size();
+    const size_t len = n < space ? n : space;
+    p.fifo.append(static_cast<const char*>(buf), len);
+    if (len > 0) { sim::progress(); }
+    pthread_cond_broadcast(&p.cv);
+    pthread_mutex_unlock(&p.mu);
+    return static_cast<ssize_t>(len);
+}
+
+static void pipe_end_closed(const std::shared_ptr<OpenFile>& of) {
+    // called when the last descriptor of an open file description of a pipe end is gone
+    Pipe& p = *of->file->pipe;
+    pthread_mutex_lock(&p.mu);
+    if (of->pipe_end == 1) { --p.readers; } else { --p.writers; }
+    pthread_cond_broadcast(&p.cv);
+    pthread_mutex_unlock(&p.mu);
+}
+
+static int sim_pipe(int fds[2]) {
+    point("pipe");
+    auto f = std::make_shared<File>();
+    f->pipe = std::make_shared<Pipe>();
+    f->pipe->capacity = g_child_spec.pipe_capacity ? g_child_spec.pipe_capacity : 65536;
+    f->pipe->readers = 1;
+    f->pipe->writers = 1;
+    f->path = "pipe:" + std::to_string(g_pipe_count++);
+    g_files[f->path] = f;
+    g_last_pipe_path = f->path;
+    auto r = std::make_shared<OpenFile>();
+    r->file = f;
+    r->pipe_end = 1;
+    auto w = std::make_shared<OpenFile>();
+    w->file = f;
+    w->pipe_end = 2;
+    fds[0] = alloc_fd();
+    g_fds[fds[0]] = r;
+    fds[1] = alloc_fd();
+    g_fds[fds[1]] = w;
+    g_last_pipe_write_fd = fds[1];
+    return 0;
+}
+
+// ---- child process
+
+static void* child_main(void* arg) {
+    Child* c = static_cast<Child*>(arg);
+    sim::name_thread("child");
+    const ChildSpec& sp = c->spec;
+    const size_t limit = sp.write_limit < sp.data.size() ? sp.write_limit : sp.data.size();
+    size_t pos = 0;
+    int code = 0;
+    while (pos < limit) {
+        size_t want = limit - pos;
+        if (sp.chunk_mode == 1 && sp.chunk && want > sp.chunk) { want = sp.chunk; }
+        else if (sp.chunk_mode == 2 && want > 1) {
+            const uint32_t style = sim::choose(sim::S_IO, 3);
+            if (style == 0 && sp.tiny_writes) { want = 1 + sim::choose(sim::S_IO, static_cast<uint32_t>(want < 16 ? want : 16)); }
+            else if (style == 1) { want = 1 + sim::choose(sim::S_IO, static_cast<uint32_t>(want < 4096 ? want : 4096)); }
+        }
+        const ssize_t r = sim_write(c->out_fd, sp.data.data() + pos, want);
+        if (r < 0) {
+            if (errno == EINTR) { continue; }
+            code = 23;   // curl: "Failed writing received data to disk/application"
+            break;
+        }
+        pos += static_cast<size_t>(r);
+    }
+    if (code == 0) { code = sp.exit_code; }
+    sim_close(c->out_fd);
+    c->status = (code & 0xff) << 8;
+    c->done = true;
+    return nullptr;
+}
+
+static pid_t sim_fork() {
+    point("fork");
+    if (g_child_spec.fork_fails && !sim::quiet()) {
+        sim::fault_fired("fork EAGAIN");
+        errno = EAGAIN;
+        return -1;
+    }
+    auto c = std::make_shared<Child>();
+    c->pid = 50000 + static_cast<int>(g_children.size());
+    c->spec = g_child_spec;
+    // the child inherits the write end of the pipe (its own descriptor on the same open file description); the
+    // read end, which the real child closes before exec, is not modelled
+    auto it = g_fds.find(g_last_pipe_write_fd);
+    if (it == g_fds.end()) {
+        errno = ENOSYS;
+        return -1;
+    }
+    c->out_fd = alloc_fd();
+    g_fds[c->out_fd] = it->second;
+    g_children.push_back(c);
+    if (pthread_create(&c->thread, nullptr, child_main, c.get()) != 0) {
+        g_fds.erase(c->out_fd);
+        g_children.pop_back();
+        errno = EAGAIN;
+        return -1;
+    }
+    return c->pid;
+}
+
+static pid_t sim_waitpid(Child& c, int* status) {
+    point("waitpid");
+    if (c.reaped) {
+        errno = ECHILD;
+        return -1;
+    }
+    // the child is a simulated thread: waiting for the process is joining it (a child that is never waited for stays
+    // unjoined, like a zombie; the scheduler's end-of-run check still sees whether it has ended)
+    pthread_join(c.thread, nullptr);
+    c.reaped = true;
+    if (status) { *status = c.status; }
+    return c.pid;
 }
 
 // ---- stdio over a simulated fd (libbz2 is the only user)
@@ -510,7 +755,7 @@ int __wrap_fstat(int fd, struct stat* st) {
             return -1;
         }
         memset(st, 0, sizeof(*st));
-        st->st_mode = S_IFREG | 0644;
+        st->st_mode = (of->file->pipe ? S_IFIFO : S_IFREG) | 0644;
         st->st_size = static_cast<off_t>(of->file->data.size());
         st->st_blksize = 4096;
         st->st_nlink = 1;
@@ -527,7 +772,7 @@ int __wrap_fstat64(int fd, struct stat64* st) {
             return -1;
         }
         memset(st, 0, sizeof(*st));
-        st->st_mode = S_IFREG | 0644;
+        st->st_mode = (of->file->pipe ? S_IFIFO : S_IFREG) | 0644;
         st->st_size = static_cast<off64_t>(of->file->data.size());
         st->st_blksize = 4096;
         st->st_nlink = 1;
@@ -596,6 +841,23 @@ void __wrap_arc4random_buf(void* buf, size_t n) {
         return;
     }
     __real_arc4random_buf(buf, n);
+}
+
+int __wrap_pipe(int fds[2]) {
+    if (sim::active() && g_child_enabled) { return sim_pipe(fds); }
+    return __real_pipe(fds);
+}
+
+pid_t __wrap_fork(void) {
+    if (sim::active() && g_child_enabled) { return sim_fork(); }
+    return __real_fork();
+}
+
+pid_t __wrap_waitpid(pid_t pid, int* status, int options) {
+    for (auto& c : g_children) {
+        if (c->pid == pid) { return sim_waitpid(*c, status); }
+    }
+    return __real_waitpid(pid, status, options);
 }
 
 int __wrap_fileno(FILE* f) {
